@@ -506,6 +506,28 @@ func (fv *FuncVerifier) evalSpecHelper(fn *types.Func, call *ast.CallExpr, st *S
 		return []Term{sel(st.vars[top], k, sortBool)}
 	case "__fresh":
 		return []Term{boolT(true)}
+	case "__eq":
+		a := fv.eval(call.Args[0], st)
+		b := fv.evalTo(call.Args[1], fv.typeOf(call.Args[0]), st)
+		if a.Sort == nil || b.Sort == nil {
+			reject("__eq on unmodelled values")
+		}
+		return []Term{eq(a, b)}
+	case "__ri":
+		tv := fv.info().Types[call.Args[0]]
+		n := 0
+		if tv.Value != nil {
+			fmt.Sscan(tv.Value.ExactString(), &n)
+		}
+		if n < 0 || n >= len(fv.riStack) {
+			reject("__ri(%d): no such enclosing range loop", n)
+		}
+		iv := fv.riStack[len(fv.riStack)-1-n]
+		v, ok := st.vars[iv]
+		if !ok {
+			reject("__ri(%d): index not available here", n)
+		}
+		return []Term{v}
 	}
 	reject("unknown specification helper %s", fn.Name())
 	return nil
@@ -572,6 +594,20 @@ func (fv *FuncVerifier) getPure(fn *types.Func, sp *FuncSpec) *pureDef {
 	fd := fv.prog.decls[key]
 	if fd == nil || fd.decl.Body == nil {
 		reject("pure function %s has no body in the loaded program", key)
+	}
+	if sp.Kind == SKSpecFunc && sp.Body == "" {
+		// uninterpreted
+		sig := fd.fn.Type().(*types.Signature)
+		var ps []string
+		for i := 0; i < sig.Params().Len(); i++ {
+			ps = append(ps, fv.mustSort(sig.Params().At(i).Type(), "spec func parameter").Name)
+		}
+		rs := fv.mustSort(sig.Results().At(0).Type(), "spec func result")
+		n := "u_" + sanitize(strings.TrimPrefix(key, "github.com/synnaxlabs/"))
+		fv.u.decls = append(fv.u.decls, fmt.Sprintf("(declare-fun %s (%s) %s)", n, strings.Join(ps, " "), rs.Name))
+		pd := &pureDef{names: []string{n}, sorts: []*Sort{rs}}
+		fv.pureDefs[key] = pd
+		return pd
 	}
 	fv.pureDefs[key] = nil
 	sig := fd.fn.Type().(*types.Signature)
